@@ -55,7 +55,7 @@ REQUIRED_CLASSES = [
     "ray:miss", "ray:hit", "ray:inside-start", "ray:degenerate", "ray:axis-parallel", "ray:diagonal", "ray:tiny-tilt", "ray:generic",
     "pipeline:re-used-for-several-observations", "pipeline:two-on-one-observer", "ray:tangent", "ray:in-phi-plane", "ray:vertical", "ray:two-passes", "ray:skippable-pass", "ray:periodic-image",
     "step:default", "step:0.3cell", "step:3cell", "n=min_samples",
-    "map:mask", "map:voxel_map", "map:via-setter", "map:via-constructor", "map:with-holes", "map:merged", "map:empty-bin",
+    "map:mask", "map:voxel_map", "map:caller-array-overwritten-after-assignment", "map:via-setter", "map:via-constructor", "map:with-holes", "map:merged", "map:empty-bin",
     "tf:identity", "tf:translate", "tf:rotate_y90", "tf:generic",
     "cyl:hole", "cyl:solid", "cyl:period<360", "cyl:axisymmetric",
     "box:pipeline", "cyl:pipeline", "pipeline:2D:radiance", "pipeline:2D:power", "pipeline:0D:radiance", "pipeline:0D:power",
@@ -732,7 +732,11 @@ def run_case(case):
                     if mk == "mask":
                         live.mask = arr.astype(bool)
                     else:
-                        live.voxel_map = arr.astype(np.int32 if j % 4 == 0 else np.int64)
+                        given = np.ascontiguousarray(arr.astype(np.int32 if j % 4 == 0 else np.int64))
+                        live.voxel_map = given
+                        # the caller's work buffer is re-used afterwards (here: overwritten): the object keeps the map it was given
+                        given[...] = -1
+                        classes.append("map:caller-array-overwritten-after-assignment")
                     obj, w = live, worlds[0]
                 else:
                     w = World()
